@@ -490,6 +490,28 @@ theorem ctxDeregisterP_triple {R : St → Prop} (hR : Stable R) : Triple R ctxDe
 theorem modDeregisterP_triple {R : St → Prop} (hR : Stable R) (m : ModId) : Triple R (modDeregisterP m) (fun _ => R) :=
   modDeregCore_triple hR _ (ctxDeregisterP_triple hR) m
 
+theorem quiet_consumeOneshot (m : ModId) (md : Mod) (msg : Msg) : Quiet (fun s => consumeOneshot s m md msg) := by
+  apply Quiet.pointwise0
+  intro s
+  unfold consumeOneshot
+  split
+  · split
+    · split
+      · exact ⟨_, quiet_removeSrc m _, rfl⟩
+      · exact ⟨_, Quiet.id, rfl⟩
+    · exact ⟨_, Quiet.id, rfl⟩
+  · exact ⟨_, Quiet.id, rfl⟩
+
+theorem quiet_flushStep (m : ModId) (x : Msg) : Quiet (fun s => flushStep m s x) := by
+  apply Quiet.pointwise0
+  intro s
+  unfold flushStep
+  split
+  · split
+    · exact ⟨_, quiet_destroyMsg x, rfl⟩
+    · exact ⟨_, quiet_consumeOneshot m _ x, rfl⟩
+  · exact ⟨_, Quiet.id, rfl⟩
+
 /-- loop-stop flush of one module -/
 theorem flushModP_triple {R : St → Prop} (hR : Stable R) (m : ModId) : Triple R (flushModP m) (fun _ => R) := by
   unfold flushModP
@@ -506,6 +528,9 @@ theorem flushModP_triple {R : St → Prop} (hR : Stable R) (m : ModId) : Triple 
       · intro _
         refine Triple.bind (Q := fun _ => R) ?_ fun _ => ?_
         · exact Triple.weaken (Triple.quietS hR _ (quiet_updMod m _ (fun md => rfl))) (fun _ _ h => h.2) (fun _ _ _ h => h)
+        refine Triple.bind Triple.get fun s1 => ?_
+        refine Triple.bind (Q := fun _ => R) ?_ fun _ => ?_
+        · exact Triple.weaken (Triple.quietS hR _ (Quiet.foldl (flushStep m) (quiet_flushStep m) _)) (fun _ _ h => h.2) (fun _ _ _ h => h)
         refine Triple.bind (Q := fun _ => R) (callPubsubCb_triple hR _ _) fun _ => ?_
         refine Triple.bind Triple.get fun s' => ?_
         apply Triple.ite
@@ -564,18 +589,6 @@ theorem loopStopP_triple {R : St → Prop} (hR : Stable R) (cid : Nat) : Triple 
         · intro _; exact Triple.retR _ (fun _ h => h)
 
 
-theorem quiet_consumeOneshot (m : ModId) (md : Mod) (msg : Msg) : Quiet (fun s => consumeOneshot s m md msg) := by
-  apply Quiet.pointwise0
-  intro s
-  unfold consumeOneshot
-  split
-  · split
-    · split
-      · exact ⟨_, quiet_removeSrc m _, rfl⟩
-      · exact ⟨_, Quiet.id, rfl⟩
-    · exact ⟨_, Quiet.id, rfl⟩
-  · exact ⟨_, Quiet.id, rfl⟩
-
 /-- one entry of a poll batch -/
 theorem recvOneP_triple {R : St → Prop} (hR : Stable R) (p : PollEnt) : Triple R (recvOneP p) (fun _ => R) := by
   unfold recvOneP
@@ -627,6 +640,10 @@ theorem recvOneP_triple {R : St → Prop} (hR : Stable R) (p : PollEnt) : Triple
             refine Triple.bind (Q := fun _ => R) ?_ fun _ => ?_
             · exact Triple.weaken (Triple.quietS hR _ (quiet_updMod m _ (fun md => rfl)))
                 (fun _ _ h => h.2) (fun _ _ _ h => h)
+            apply Triple.ite
+            · intro _
+              refine Triple.bind (Q := fun _ => R) (Triple.quietS hR _ (quiet_destroyMsg msg)) fun _ => Triple.retR _ (fun _ h => h)
+            intro _
             refine Triple.bind (Q := fun _ => R) (Triple.quietS hR _ (quiet_consumeOneshot m md msg)) fun _ => ?_
             apply Triple.ite
             · intro _
